@@ -162,8 +162,10 @@ def pool(init, initargs, procs=16):
 import signal
 
 
-class Hang(Exception):
-    """A call into the library did not return within the time limit."""
+class Hang(BaseException):
+    """A call into the library did not return within the time limit.
+    (Not an Exception: the library's own `except Exception:` rollback handlers must not swallow it -- a seeded change that
+    makes the ancestor walk endless turned the 10 s limit into an endless rollback that way.)"""
 
 
 def _on_alarm(signum, frame):
@@ -184,18 +186,19 @@ def call_with_deadline(fn, seconds=10):
 
 
 def _deadline(fn, seconds):
+    import time
+
     old = signal.signal(signal.SIGALRM, _on_alarm)
-    signal.setitimer(signal.ITIMER_REAL, seconds)
+    t0 = time.time()
+    outer = signal.setitimer(signal.ITIMER_REAL, seconds, 1.0)      # (repeating: raised again should something swallow it)
     try:
         return fn()
     finally:
         signal.setitimer(signal.ITIMER_REAL, 0)
         signal.signal(signal.SIGALRM, old)
-
-
-class WorkerError(Exception):
-    """An exception that escaped a worker function, re-raised as a plain string (exception classes defined next to the
-    instrumented node classes cannot be unpickled in the parent process, which never imports anytree)."""
+        if outer[0] > 0:
+            # an enclosing time limit (a whole history) keeps running
+            signal.setitimer(signal.ITIMER_REAL, max(0.05, outer[0] - (time.time() - t0)), 1.0)
 
 
 def safe_worker(fn):
